@@ -523,6 +523,94 @@ def not_forwarded(repo, col, prop):
     col.info["calls_omitting_a_held_optional_argument"] = n
 
 
+ARG_NAME_OK = {
+    # (caller, callee, argument name): reason  -- reviewed crossings
+}
+
+
+def arg_names(repo, col, prop):
+    """Swapped arguments: a call passes a variable whose NAME is one of the callee's parameter names, but at the position (or
+    under the keyword) of a DIFFERENT parameter -- `f(voltage_terms, voltages)` for `def f(voltages, voltage_terms)`.
+    Names are the programmer's own statement of roles, in the caller and in the callee; when they cross, one side is
+    wrong (Engler et al., 'beliefs').  Resolved callees only (repository functions, methods on self / module receivers,
+    local functions, vmap(f)(...))."""
+    from sa.core import FuncInfo
+    R = f"R-{prop}-argnames"
+    sc, ents, _ = scope(repo, prop)
+    byname = {}
+    for f in repo.all_functions():
+        byname.setdefault(f.name, []).append(f)
+
+    def callee_of(c, fi):
+        f = c.func
+        # vmap(g, ...)(args) / jit(g)(args)
+        if isinstance(f, ast.Call) and isinstance(f.func, (ast.Name, ast.Attribute)) and ast.unparse(f.func).split(".")[-1] in ("vmap", "jit") and f.args:
+            f = f.args[0]
+        if isinstance(f, ast.Name):
+            r = repo.resolve_name(repo.mods[fi.file], f.id)
+            if isinstance(r, FuncInfo):
+                return r, False
+            if r is not None and hasattr(r, "methods"):
+                for b in repo.mro(r.name):
+                    if "__init__" in b.methods:
+                        return b.methods["__init__"], True
+            top = fi
+            while top.parent is not None:
+                top = top.parent
+            for n_ in ast.walk(top.node):
+                if isinstance(n_, ast.FunctionDef) and n_.name == f.id and n_ is not fi.node:
+                    return FuncInfo(n_.name, top.qual + ".<locals>." + n_.name, fi.file, n_, cls=None, parent=top), False
+        if isinstance(f, ast.Attribute):
+            recv = ast.unparse(f.value)
+            if recv in ("self", "self.base", "module", "super()", "view", "net", "cell", "pointer", "self.base.base"):
+                c2 = byname.get(f.attr, [])
+                if c2 and all(x.cls for x in c2):
+                    # same parameter list in every class that defines it, else ambiguous
+                    sigs = {tuple(x.params) for x in c2}
+                    if len(sigs) == 1:
+                        return c2[0], True
+        return None, False
+
+    n = 0
+    for fi in repo.all_functions():
+        if (fi.file, fi.qual) not in sc or fi.file in SKIP_FILES:
+            continue
+        for c in ast.walk(fi.node):
+            if not isinstance(c, ast.Call) or any(isinstance(a, ast.Starred) for a in c.args):
+                continue
+            g, is_method = callee_of(c, fi)
+            if g is None:
+                continue
+            a = g.node.args
+            names = [x.arg for x in a.posonlyargs + a.args]
+            if names and names[0] in ("self", "cls") and (is_method or g.cls):
+                # a staticmethod has no self
+                if not any(isinstance(d, ast.Name) and d.id == "staticmethod" for d in g.node.decorator_list):
+                    names = names[1:]
+            allp = names + [x.arg for x in a.kwonlyargs]
+            bound = {}  # parameter -> name of the variable passed
+            for i, arg in enumerate(c.args):
+                if i < len(names) and isinstance(arg, ast.Name):
+                    bound[names[i]] = arg.id
+            for k in c.keywords:
+                if k.arg and isinstance(k.value, ast.Name):
+                    bound[k.arg] = k.value.id
+            if len(bound) < 2:
+                continue
+            n += 1
+            crossed = [(p_, v_) for p_, v_ in bound.items() if v_ != p_ and v_ in allp and bound.get(v_) != v_]
+            why = next((ARG_NAME_OK.get((fi.qual, g.qual, v_)) for _p, v_ in crossed if ARG_NAME_OK.get((fi.qual, g.qual, v_))), None)
+            if crossed and not why:
+                p_, v_ = crossed[0]
+                col.bad(R, fi, f"{fi.qual} -> {g.qual}: arguments are passed under their own names",
+                        f"`{ast.unparse(c)[:80]}` passes `{v_}` as parameter `{p_}` of {g.qual}({', '.join(allp)}), which has a parameter "
+                        f"named `{v_}` of its own: the arguments are swapped (or one of the two names is wrong)", node=c)
+            else:
+                col.ok(R, fi, f"{fi.qual} -> {g.qual}: arguments are passed under their own names", why or "no crossing", node=c)
+    col.rule(R, "a variable named like a parameter of the callee is passed as that parameter", 0)
+    col.info["calls_with_named_arguments_checked"] = n
+
+
 def must_stores(repo, col, prop):
     """Stores that re-establish an invariant are unconditional (table MUST_STORE in rules/mustcall_table.py)."""
     from .mustcall_table import MUST_STORE
@@ -564,5 +652,6 @@ def run_all(prop, repo, col, tier):
     must_calls(repo, col, prop)
     not_forwarded(repo, col, prop)
     must_stores(repo, col, prop)
+    arg_names(repo, col, prop)
     if pending is not None:
         raise pending
